@@ -225,6 +225,29 @@ func main() {
 			solveOne(j.o, j.file, []string{"z3-new", "z3", "cvc5"}, *timeout)
 		})
 		res.SolveMs = ms(time.Since(t1))
+		// call-site reachability pairs: "after" unreachable counts only when "before" is reachable
+		byName := map[string]*Obligation{}
+		for _, fr := range res.Functions {
+			for _, o := range fr.Obligations {
+				byName[o.Name] = o
+			}
+		}
+		for _, fr := range res.Functions {
+			for _, o := range fr.Obligations {
+				if o.Vacuity && o.VacPre != "" && o.Verdict == "unsat" {
+					if pre := byName[o.VacPre]; pre != nil && pre.Verdict != "sat" {
+						o.Verdict = "sat"
+						o.Output = "dead path: the point before the call is not reachable either"
+					}
+				}
+			}
+			for _, o := range fr.Obligations {
+				if o.Vacuity && strings.Contains(o.Name, "/vacuity-call-before@") && o.Verdict != "sat" {
+					o.Verdict = "sat" // only the 'after' member of the pair reports
+					o.Output = "dead path"
+				}
+			}
+		}
 	}
 	if *smtDir == "" {
 		for _, j := range jobsList {
